@@ -54,9 +54,10 @@ def exhaustive(quick):
 
 
 def check(ctx):
-    gens = [("sync", 500, 40000, sync_case)]
+    gens = [("sync", 500, 40000, sync_case),
+            ("hub", 150, 8000, lambda r: schedgen.gen_case(r, schedgen.gen_hub_prog(r), ncalls=1))]
     rule = ("programs of 2-6 thread bodies over up to 3 objects and 3 names (waittill, waittill_any, notify, endon, delete, thread, "
-            "waitthread, wait, pause, end) under random host calls and frame schedules, plus every short history of two workers and a "
+            "waitthread, wait, pause, end), and programs whose threads wait on / notify a THREAD object of their own script instance (local.p0 waittill / notify), under random host calls and frame schedules, plus every short history of two workers and a "
             "notifier over one object; non-trivial = at least one accepted command; distinct by SHA-1")
     return schedcheck.run(ctx, PROP, PROPS_MODULE, PROPS_FILE, gens, TRUSTED, ASSUME, rule, exhaustive=exhaustive)
 
